@@ -105,6 +105,31 @@ def main(argv=None):
                 undecided.append((fq, f"{clause}: solver answered unknown in proof mode and found no counter-model by unrolling"))
         for r in res["prove"]:
             max_time = max(max_time, r["time"])
+    # lemmas over the contracts' spec functions only (no code): pure SMT validity
+    for lname, fn in getattr(pm, "LEMMAS", []) if not a.only else []:
+        import z3 as _z3
+
+        t1 = time.time()
+        try:
+            formula = fn()
+            so = _z3.Solver()
+            so.set("timeout", opts["timeout_ms"])
+            so.add(_z3.Not(formula))
+            r = so.check()
+        except Exception as e:
+            faults.append((lname, f"lemma crashed: {e}"))
+            continue
+        n_obl += 1
+        by_kind["lemma"] = by_kind.get("lemma", 0) + 1
+        solver_time += time.time() - t1
+        if r == _z3.unsat:
+            n_dis += 1
+            if len(samples) < 8:
+                samples.append({"obligation": f"{pid}:lemma.{lname}", "status": "proved", "solver_s": round(time.time() - t1, 4)})
+        elif r == _z3.sat:
+            violations.append((f"lemma.{lname}", "lemma", {"witness": {"model": str(so.model())[:3000], "name": lname}, "n": 1, "proved": 0}))
+        else:
+            undecided.append((f"lemma.{lname}", "solver answered unknown"))
     # site obligations (K2/K3): discharged by syntactic scans of the whole package
     site_records = []
     if getattr(pm, "SITE_CHECKS", None) and not a.only:
